@@ -458,6 +458,48 @@ fn one(n: usize, cap0: usize, st: &mut PopStats) -> Result<(), Vio> {
     clear_events(&mut s, true);
     check_events(&mut s, "after the world-level clear", st)?;
 
+    // phase 4b (C10 at scale): a closure that panics in the middle of a destroying pass - everything flagged before the panic
+    // is gone, everything else (the entity being visited included) is untouched, and the world keeps working
+    {
+        let before = s.n_alive;
+        let stop_at = before / 2;
+        let mut seen = 0usize;
+        let mut flagged_uids: Vec<u32> = Vec::new();
+        let r = catch_unwind(AssertUnwindSafe(|| {
+            ecs_iter_destroy!(s.w, |u: &Uid, _e: &Entity<Pop>| {
+                seen += 1;
+                if seen > stop_at {
+                    panic!("population: injected closure panic");
+                }
+                if seen % 5 == 0 { flagged_uids.push(u.0); EcsStepDestroy::ContinueDestroy } else { EcsStepDestroy::Continue }
+            });
+        }));
+        match r {
+            Ok(()) if before > 0 && stop_at < before => vio!("C10", "injected-panic-swallowed", "the closure panic at invocation {} of {} did not propagate", stop_at + 1, before),
+            Ok(()) => {}
+            Err(p) => {
+                let m = panic_msg(&p);
+                if !m.contains("injected closure panic") {
+                    vio!("C10", "different-panic", "ecs_iter_destroy! with a panicking closure raised '{}' instead of the injected panic", m);
+                }
+            }
+        }
+        for u in &flagged_uids {
+            let i = *u as usize - 1;
+            if s.alive[i] {
+                s.alive[i] = false;
+                s.ev_destroyed.push(i as u32);
+                s.n_alive -= 1;
+            }
+        }
+        st.entities_destroyed += flagged_uids.len() as u64;
+        if s.w.pop.len() != s.n_alive {
+            vio!("C10,C07", "panic-left-wrong-population", "after the closure panic at invocation {}: {} entities flagged before it, len {} (expected {})", stop_at + 1, flagged_uids.len(), s.w.pop.len(), s.n_alive);
+        }
+        sweep(&mut s, "after a closure panic in the middle of ecs_iter_destroy!", st).map_err(|mut v| { v.prop = format!("C10,{}", v.prop); v })?;
+        check_events(&mut s, "after a closure panic in the middle of ecs_iter_destroy!", st).map_err(|mut v| { v.prop = format!("C10,{}", v.prop); v })?;
+    }
+
     // phase 5: refill to the old population without growth: every freed position is reusable, no handle comes back
     let missing = n - s.n_alive;
     let r = catch_unwind(AssertUnwindSafe(|| -> Result<(), Vio> {
